@@ -45,7 +45,7 @@ Property clause → theorem
                                                                           → `more_frequent_triggering_not_more`
 * fee switched off and on again: the span without fee is not accrued     → `fee_toggle_restarts_clock` (idle vault)
   FALSE for a vault deposited into (withdrawn from, drawn, repaid) while the fee is zero: `MsgDeposit` re-stamps the vault with the
-  current height and the zero-fee window is charged at the new fee       → `fee_zero_window_touched_counterexample` (reproduced, D36)
+  current height and the zero-fee window is charged at the new fee       → `fee_zero_window_touched_counterexample` (reproduced, D46)
 (d) the bookkeeping around (b) for LOCKERS (`Model/LockerAccrual.lean`: collector entry rate + stamp, locker balance + stamp with the
     `BlockHeight = 0` flag, tracker, net fees; the five locker messages, the rate update `WasmUpdateCollectorLookupTable` with its
     sweep `LockerIterateRewards`, whitelist on / off), over ALL histories of {create, deposit, withdraw, close, reward-calc, rate
@@ -56,8 +56,8 @@ Property clause → theorem
                                                                             without deposit / withdraw while the rate is zero, whose
                                                                             rate-update sweeps reach the locker), `savings_time_budget_from_any_state`
   the restriction is necessary — the code credits a zero-rate window to a locker touched in it
-                                                                          → `zero_rate_window_touched_counterexample` (reproduced, D35)
-  with the three-line repair of D35 the statement holds for ALL histories → `savings_only_for_time_at_positive_rate_repaired`
+                                                                          → `zero_rate_window_touched_counterexample` (reproduced, D45)
+  with the three-line repair of D45 the statement holds for ALL histories → `savings_only_for_time_at_positive_rate_repaired`
 * what each accruing call books: `interest` over [clock, now] at the rate in force (old rate for a rate update)
                                                                           → `locker_calc_books_interest`, `locker_move_books_interest`,
                                                                             `rate_change_restarts_clock`
@@ -467,7 +467,7 @@ theorem fee_toggle_restarts_clock (s sa sb : St) (ca cb : Ctx) (f : Dec) (pw pw'
   toggle_restarts_clock s sa sb ca cb f pw pw' x hwl hst hf hx ua ub
 
 /-- **Counterexample — a vault deposited into while the fee is zero is charged the zero-fee window** (reproduced on the unchanged
-tree: first `va` sequence of every harness run, values of `math.Pow` as the real run obtained them; defect D36). Debt 1 000 000 at
+tree: first `va` sequence of every harness run, values of `math.Pow` as the real run obtained them; defect D46). Debt 1 000 000 at
 fee 0; after one day the owner deposits 5 units of collateral — `MsgDeposit` re-stamps the vault with the current height
 (x/vault/keeper/msg_server.go:300-301), the flag `BlockHeight = 0` set by `MsgCreate` is lost; after a year the fee is set to 10 %
 and `MsgVaultInterestCalc` is delivered in the same block: 99 641 units of interest are booked for 364 days at the new fee, with ZERO
@@ -639,7 +639,7 @@ theorem accrual_subadditive_across_rate_change (ops : FloatOps) (s s1 : St) (l l
     rw [c2', c']
   exact ⟨s2, s', e2, e', hcoll, a2, a3, two_le_one ops s s1 l l1' c1 c2.now _ _ hv hne hn63 hh h12 e1 k1 b2 b'⟩
 
-/-- **With the repair of D35** (deposit / withdraw write `BlockHeight = 0` while the rate is zero, as create does — the three-line
+/-- **With the repair of D45** (deposit / withdraw write `BlockHeight = 0` while the rate is zero, as create does — the three-line
 patch in notes/C18.md, `LockerAccrual.stepFix`) **the time budget holds at full strength**: for EVERY history (no restriction on
 deposits and withdrawals), every rate value `r ≠ 0`: seconds credited at `r` + seconds still claimable at `r` ≤ seconds the rate has
 been `r`. On the history of the counterexample the repaired model credits nothing for the window (example below). -/
